@@ -89,6 +89,32 @@ def cmp_c13(case, impl, model):
     return None if impl == model else "the rendered document differs from the model's"
 
 
+def extra_c17(work, tier, seed, stats):
+    """race detector reports and the footprint scan (package-level variables of rscp written by function bodies)"""
+    import glob, json, os, subprocess
+    out = []
+    for f in sorted(glob.glob(os.path.join(work, "race.*"))):
+        txt = open(f).read()
+        if "DATA RACE" in txt:
+            out.append({"kind": "predicate", "case": "race detector report " + os.path.basename(f), "impl": txt[:4000], "model": None,
+                        "message": "the race detector observed an unsynchronised access: " + " ".join(txt.split("\n")[1:4])[:300]})
+    fp = os.path.join(work, "bin", "footprint")
+    if os.path.exists(fp):
+        p = subprocess.run([fp, os.path.join(os.environ.get("REPO", "/repo"), "rscp")], stdout=subprocess.PIPE, stderr=subprocess.STDOUT)
+        try:
+            d = json.loads(p.stdout.decode())
+        except Exception:
+            return out + [{"kind": "predicate", "case": "footprint scan", "impl": p.stdout.decode()[:1000], "model": None,
+                           "message": "the footprint scan of package rscp failed"}]
+        stats["package_level_vars"] = len(d.get("vars") or [])
+        for w in d.get("writes") or []:
+            if w["var"] in ("Log", "Now"):
+                continue
+            out.append({"kind": "predicate", "case": "footprint %s %s" % (w["var"], w["pos"]), "impl": json.dumps(w), "model": None,
+                        "message": "package rscp writes the package-level variable %s in a function body (%s at %s): shared mutable state besides the logger and the clock" % (w["var"], w["kind"], w["pos"])})
+    return out
+
+
 CODEC_ASSUME = ["github.com/azihsoyn/rijndael256 + crypto/cipher CBC compute the Gallina Rijndael-256/CBC (compared byte for byte on every W/R case of this run)",
                 "hash/crc32.ChecksumIEEE computes the Gallina bit-serial CRC-32 (compared on this run)",
                 "encoding/binary little-endian layout, time.Unix normalisation as modelled"]
@@ -116,6 +142,13 @@ PROPS = {
     "C13": {"exec": "C13", "needs": ["e3dc.test"], "compare": cmp_c13,
             "assumptions": ["number, string and time formatting of encoding/json / strconv / time (oracle table per case)",
                             "for a tag used for both a scalar and a container only validity and the absence of a crash are compared (the property does not fix that rendering)"]},
+    "C15": {"exec": "C15", "needs": ["e3dc", "e3dc.test"],
+            "assumptions": ["PARTIAL: jnovack/flag (flag syntax, environment variables, config file), os (files, stdin) and the process exit path are not modelled; they are exercised through the real binary",
+                            "the request text's JSON syntax is handled by encoding/json (the model starts at the syntax tree)"]},
+    "C17": {"exec": "C17", "race": True, "needs": ["footprint"], "extra": extra_c17,
+            "assumptions": ["PARTIAL: data-race freedom in the sense of the Go memory model is observed with the race detector on the schedules this run produced, not proved",
+                            "the footprint scan (go/ast) finds writes to package-level variables by name; aliasing through pointers taken in init is not tracked",
+                            "the harness fixes rscp.Now once before the goroutines start"]},
     "C14": {
         "exec": "C14",
         "exhaustive": True,
